@@ -114,17 +114,23 @@ func runObligations(results []*FuncResult, dir string, timeoutS, seed int, all b
 	// an obligation that discharged on the pinned tree and ran out of time now may
 	// be the victim of a loaded machine (the limit is wall-clock): it gets one
 	// more, sequential, attempt with a longer limit before it counts as failed
-	if retryFilter != nil && machineLoaded() {
+	if retryFilter != nil {
+		// (a loaded machine gets more second attempts; on a quiet one a few are
+		// still made, with another solver seed: proofs can be seed-sensitive)
+		maxRetry := 3
+		if machineLoaded() {
+			maxRetry = 6
+		}
 		n := 0
 		for _, j := range jobs {
 			if j.o.Cover || j.o.Result == nil || j.o.Result.Status != "timeout" || !retryFilter(j.o.Name) {
 				continue
 			}
-			if n++; n > 6 {
+			if n++; n > maxRetry {
 				break
 			}
 			q := j.vc.query(j.o)
-			r := runQuery(q, dir, timeoutS*3, seed, false)
+			r := runQuery(q, dir, timeoutS*3, seed+17, false)
 			if r.Status == "unsat" {
 				r.Output += "(discharged at the second attempt, limit x3)\n"
 				j.o.Result = &r
